@@ -88,6 +88,7 @@ def gen(rng, tier, i):
                         elif failing and rng.random() < 0.15: data += 'do rec c%d_%d;bomb %d err\r\n' % (c, k, 100 * c + k)
                         else: data += 'c%d_%d\r\n' % (c, k)
                 segs = rand_segs(rng, len(data)) if rng.random() < 0.4 else None
+                if rng.random() < 0.05: steps.append('recvintr %d %d' % (c, rng.randint(1, 2)))     # the read of this data is interrupted first (EINTR): the data is still there
                 steps.append(send(c, data, segs))
             p.cycle(*steps)
         elif r < 0.8:
